@@ -10,6 +10,8 @@
 //	              configuration is observed (size, hashIterations through the verif export, Add-then-Exists
 //	              behaviour); the observations are written to -obs for TLC to check the interface obligation
 //	              Obligation(K, Size) of Bloom.tla
+//	-mode big     large batches (more than 32768 indexes in one AddMulti/ExistsMulti call) with the per-position answers
+//	              the specification predicts
 //	-mode replay  TLC-generated histories (each step carrying the specification's predicted answers, obligations
 //	              and post-state) are applied to the real filters; verdicts follow DESIGN.md 2.3: property-level
 //	              contradictions are violations, other mismatches with the exact prediction are divergences
@@ -19,6 +21,7 @@ import (
 	"bufio"
 	"context"
 	"encoding/json"
+	"errors"
 	"flag"
 	"fmt"
 	"math"
@@ -35,7 +38,7 @@ import (
 )
 
 var (
-	mode  = flag.String("mode", "replay", "induce | sweep | replay")
+	mode  = flag.String("mode", "replay", "induce | sweep | replay | big")
 	inF   = flag.String("in", "", "input file (json for induce/sweep, ndjson of histories for replay)")
 	obsF  = flag.String("obs", "", "sweep: ndjson file receiving one observation per concrete configuration")
 	prop  = flag.String("prop", "", "C35 | C36 | C37 (selects which kinds a sweep covers)")
@@ -434,6 +437,7 @@ type step struct {
 	Ans     []bool     `json:"ans"`
 	Removed []bool     `json:"removed"`
 	Err     bool       `json:"err"`
+	Cls     string     `json:"cls"` // reply class of the script call: ok | errreply | lostbefore | lostafter
 	Now     int64      `json:"now"`
 	Count   int64      `json:"count"`
 	Present []bool     `json:"present"` // over Q
@@ -444,18 +448,23 @@ type step struct {
 	NetQ    []int64    `json:"netq"`    // over Q: lower bound the property puts on ItemMinCount (counting)
 	MustAns []bool     `json:"mustans"` // over Keys (Exists steps): obligation for each queried key
 	Cnt     [][2]int64 `json:"cnt"`     // counting: non-zero counters
+	QsAns   [][]bool   `json:"qsans"`   // per batch of QS: ExistsMulti(QS[i]) as one call
+	QsMins  [][]int64  `json:"qsmins"`  // per batch of QS: ItemMinCountMulti(QS[i]) (counting)
+	QsMust  [][]bool   `json:"qsmust"`  // per batch and position: obligation
+	QsNet   [][]int64  `json:"qsnet"`   // per batch and position: net multiplicity (counting)
 }
 
 type history struct {
-	ID       string            `json:"id"`
-	Config   config            `json:"config"`
-	TickMs   int64             `json:"tick_ms"`
-	Size     uint              `json:"size"`
-	K        uint              `json:"k"`
-	Items    map[string]string `json:"items"`
-	Q        []string          `json:"q"`
-	Steps    []step            `json:"steps"`
-	Src      string            `json:"src"`
+	ID     string            `json:"id"`
+	Config config            `json:"config"`
+	TickMs int64             `json:"tick_ms"`
+	Size   uint              `json:"size"`
+	K      uint              `json:"k"`
+	Items  map[string]string `json:"items"`
+	Q      []string          `json:"q"`
+	QS     [][]string        `json:"qs"`
+	Steps  []step            `json:"steps"`
+	Src    string            `json:"src"`
 }
 
 type replayer struct {
@@ -463,6 +472,9 @@ type replayer struct {
 	rep      *vh.Report
 	diverged map[string]int
 	shapes   map[string]bool
+	loose    bool   // current history: the real state left the exact prediction; only property obligations are judged from here on
+	tag      string // current history: input class appended to answer signatures (fractional-second window, second handle)
+	nfault   int
 }
 
 func (r *replayer) real(h *history, ks []string) []string {
@@ -473,7 +485,11 @@ func (r *replayer) real(h *history, ks []string) []string {
 	return out
 }
 
+// diverge: the real code differs from the exact prediction in a way no property forbids.  The history goes on in
+// "loose" mode: the obligations of the specification (must / net multiplicity) depend only on which calls returned
+// nil and which removals succeeded, so they stay valid as long as those premises are observed to hold.
 func (r *replayer) diverge(sig, what string) {
+	r.loose = true
 	r.diverged[sig]++
 	if r.diverged[sig] == 1 {
 		r.rep.Inconcl("divergence %s: %s", sig, what)
@@ -482,25 +498,96 @@ func (r *replayer) diverge(sig, what string) {
 
 func brief(h *history, upto int) string {
 	var sb strings.Builder
-	fmt.Fprintf(&sb, "%s(n=%d,rate=%g) size=%d K=%d items=%v:", h.Config.Kind, h.Config.N, h.Config.Rate, h.Size, h.K, h.Items)
+	fmt.Fprintf(&sb, "%s(n=%d,rate=%g", h.Config.Kind, h.Config.N, h.Config.Rate)
+	if h.Config.Kind == "sliding" {
+		fmt.Fprintf(&sb, ",window=%dms,ro=%v", h.Config.WindowMs, h.Config.ReadOnly)
+	}
+	fmt.Fprintf(&sb, ") size=%d K=%d items=%v:", h.Size, h.K, h.Items)
 	for i := 0; i <= upto && i < len(h.Steps); i++ {
 		s := h.Steps[i]
-		if s.Op == "Tick" {
-			sb.WriteString(" Tick")
-		} else {
+		switch {
+		case s.Op == "Tick":
+			fmt.Fprintf(&sb, " Tick(+%dms)", h.TickMs)
+		case s.Op == "NewHandle":
+			sb.WriteString(" NewHandle")
+		case s.Cls != "" && s.Cls != "ok":
+			fmt.Fprintf(&sb, " %s%v/%s", s.Op, s.Keys, s.Cls)
+		default:
 			fmt.Fprintf(&sb, " %s%v", s.Op, s.Keys)
 		}
 	}
 	return sb.String()
 }
 
+var errReplies = []string{
+	"OOM command not allowed when used memory > 'maxmemory'.",
+	"READONLY You can't write against a read only replica.",
+	"MISCONF Redis is configured to save RDB snapshots, but it's currently unable to persist to disk.",
+}
+
+// arm installs a one-shot intercept on the next script call (EVALSHA or EVAL).
+func (r *replayer) arm(cls string) *bool {
+	fired := new(bool)
+	if cls == "" || cls == "ok" {
+		*fired = true
+		return fired
+	}
+	r.nfault++
+	text := errReplies[r.nfault%len(errReplies)]
+	r.e.srv.SetIntercept(func(c *fakeredis.Conn, argv []string) (fakeredis.Value, fakeredis.Action) {
+		if *fired || len(argv) == 0 {
+			return fakeredis.Value{}, fakeredis.Pass
+		}
+		if cmd := strings.ToUpper(argv[0]); cmd != "EVALSHA" && cmd != "EVAL" {
+			return fakeredis.Value{}, fakeredis.Pass
+		}
+		*fired = true
+		switch cls {
+		case "errreply":
+			return fakeredis.Err(text), fakeredis.Reply
+		case "lostbefore":
+			return fakeredis.Value{}, fakeredis.CutNow
+		case "lostafter":
+			return fakeredis.Value{}, fakeredis.ExecThenCut
+		}
+		panic("cls " + cls)
+	})
+	return fired
+}
+
+// disarm removes the intercept and, after a cut, waits until the client has a working connection again.
+func (r *replayer) disarm(cls string) bool {
+	r.e.srv.SetIntercept(nil)
+	if cls != "lostbefore" && cls != "lostafter" {
+		return true
+	}
+	deadline := time.Now().Add(60 * time.Second)
+	for time.Now().Before(deadline) {
+		ctx, cancel := context.WithTimeout(r.e.ctx, 5*time.Second)
+		err := r.e.client.Do(ctx, r.e.client.B().Ping().Build()).Error()
+		cancel()
+		if err == nil {
+			return true
+		}
+		time.Sleep(5 * time.Millisecond)
+	}
+	return false
+}
+
 func (r *replayer) run(h *history) {
 	e := r.e
-	f, err := e.build(h.Config, e.name("h"))
+	r.loose = false
+	r.tag = ""
+	if h.Config.Kind == "sliding" && h.Config.WindowMs%1000 != 0 {
+		r.tag = ":fractional-second-window"
+	}
+	name := e.name("h")
+	f, err := e.build(h.Config, name)
 	if err != nil {
 		r.diverge("constructor-rejects", fmt.Sprintf("%v: %v", h.Config, err))
 		return
 	}
+	handles := []*filter{f}
 	size, k, _ := rueidisprob.VerifSizing(f.raw)
 	if size != h.Size || k != h.K {
 		r.diverge("sizing-changed", fmt.Sprintf("%v: model generated for size=%d K=%d, constructor now gives size=%d K=%d", h.Config, h.Size, h.K, size, k))
@@ -509,72 +596,143 @@ func (r *replayer) run(h *history) {
 	kind := h.Config.Kind
 	pure := kind != "sliding"
 	prevCount := int64(0)
-	haveCount := true
 	shape := kind
 	for i := range h.Steps {
 		s := &h.Steps[i]
 		ctx, cancel := e.cctx()
 		single := (i+len(h.ID))%2 == 0
 		where := func() string { return brief(h, i) }
+		f = handles[(i+len(h.ID))%len(handles)]
+		cls := s.Cls
+		if cls == "" {
+			cls = "ok"
+		}
+		if cls != "ok" {
+			shape += "+" + cls
+		}
 		switch s.Op {
 		case "Tick":
 			e.clock.Advance(time.Duration(h.TickMs) * time.Millisecond)
 			e.srv.ExpireNow()
-		case "AddMulti":
-			err := f.addMulti(ctx, r.real(h, s.Keys), single)
-			if (err != nil) != s.Err {
-				r.diverge(kind+":add-error-mismatch", fmt.Sprintf("%s: real err=%v, specification err=%v", where(), err, s.Err))
+		case "NewHandle":
+			// another process constructs a handle for the same filter name; both handles are used from here on
+			f2, err := e.build(h.Config, name)
+			if err != nil {
+				r.diverge(kind+":second-constructor-fails", fmt.Sprintf("%s: %v", where(), err))
 				cancel()
 				return
 			}
+			handles = append(handles, f2)
+			shape += "+newhandle"
+			if !strings.Contains(r.tag, ":after-second-handle") {
+				r.tag += ":after-second-handle"
+			}
+		case "AddMulti":
+			fired := r.arm(cls)
+			err := f.addMulti(ctx, r.real(h, s.Keys), single)
+			ok := r.disarm(cls)
+			if !*fired || !ok {
+				r.rep.Inconcl("%s: fault %s could not be injected / the client did not reconnect", where(), cls)
+				cancel()
+				return
+			}
+			if (err != nil) != s.Err {
+				if err == nil {
+					// the call returned nil although the specification says the caller is told an error: the caller now relies on
+					// the items being in the filter (AddNilMeansPresent)
+					got, xerr := f.existsMulti(ctx, r.real(h, s.Keys), false)
+					absent := -1
+					for j := range got {
+						if !got[j] {
+							absent = j
+							break
+						}
+					}
+					if xerr == nil && absent >= 0 && cls != "ok" {
+						r.rep.Violate(kind+":add-returns-nil-but-item-absent:"+cls,
+							fmt.Sprintf("%s: %s returned nil although the script call was answered with %s; immediately afterwards ExistsMulti(%v) = %v: key #%d is absent (an Add that returns nil must have added the item)",
+								where(), opName("Add", s, single), cls, s.Keys, got, absent+1), h)
+						cancel()
+						return
+					}
+				}
+				r.diverge(kind+":add-error-mismatch:"+cls, fmt.Sprintf("%s: real err=%v, specification err=%v", where(), err, s.Err))
+				if err != nil { // fewer items were added than the obligations assume: nothing can be judged any more
+					cancel()
+					return
+				}
+			}
 		case "RemoveMulti":
 			before := r.snapshot(f)
+			beforeCount, _ := f.count(ctx)
 			var err error
+			fired := r.arm(cls)
 			if single && len(s.Keys) == 1 {
 				err = f.cbf.Remove(ctx, h.Items[s.Keys[0]])
 			} else {
 				err = f.cbf.RemoveMulti(ctx, r.real(h, s.Keys))
 			}
-			if err != nil {
-				r.diverge(kind+":remove-error", fmt.Sprintf("%s: %v", where(), err))
+			ok := r.disarm(cls)
+			if !*fired || !ok {
+				r.rep.Inconcl("%s: fault %s could not be injected / the client did not reconnect", where(), cls)
 				cancel()
 				return
 			}
+			if (err != nil) != s.Err {
+				r.diverge(kind+":remove-error-mismatch:"+cls, fmt.Sprintf("%s: real err=%v, specification err=%v", where(), err, s.Err))
+			}
 			after := r.snapshot(f)
 			want := fmtCnt(s.Cnt, s.Count)
-			anyFailed, allFailed := false, true
+			anyFailed, allFailed, nOK := false, true, int64(0)
 			for _, ok := range s.Removed {
 				if !ok {
 					anyFailed = true
 				} else {
 					allFailed = false
+					nOK++
 				}
 			}
-			if after != want {
+			if r.loose {
+				// the counters already differ from the prediction.  The obligations stay valid only if the removals the
+				// specification counts are the ones that happened: all succeeded or all were refused, as the item counter shows
+				afterCount, cerr := f.count(ctx)
+				if cerr != nil || (anyFailed && !allFailed) || int64(beforeCount)-int64(afterCount) != nOK {
+					cancel()
+					return
+				}
+			} else if after != want {
 				switch {
 				case allFailed && after != before:
 					r.rep.Violate("counting:failed-remove-changes-state:"+opArity(s),
-						fmt.Sprintf("%s: the specification predicts every removal of this call to fail (a counter would go negative), yet the server state changed: before %s after %s", where(), before, after), h)
+						fmt.Sprintf("%s: the specification predicts every removal of this call to fail (a counter would go negative, or the call was not executed), yet the server state changed: before %s after %s", where(), before, after), h)
+					cancel()
+					return
 				case anyFailed:
 					r.rep.Violate("counting:failed-remove-affects-batch:"+opArity(s),
 						fmt.Sprintf("%s: removal outcome predicted %v (failed removals change nothing, the others are applied); state after: real %s, specification %s", where(), s.Removed, after, want), h)
+					cancel()
+					return
 				default:
 					r.diverge(kind+":remove-state-mismatch", fmt.Sprintf("%s: real %s, specification %s", where(), after, want))
+					cancel()
+					return
 				}
-				cancel()
-				return
 			}
 			if anyFailed {
 				shape += "+failedremove"
 			}
 		case "ExistsMulti":
+			fired := r.arm(cls)
 			got, err := f.existsMulti(ctx, r.real(h, s.Keys), single)
-			if (err != nil) != s.Err {
-				r.diverge(kind+":exists-error-mismatch", fmt.Sprintf("%s: real err=%v, specification err=%v", where(), err, s.Err))
+			ok := r.disarm(cls)
+			if !*fired || !ok {
+				r.rep.Inconcl("%s: fault %s could not be injected / the client did not reconnect", where(), cls)
 				cancel()
 				return
 			}
-			if err == nil && !r.compareAnswers(h, kind, "step", opName("Exists", s, single), s.Keys, got, s.Ans, s.MustAns, where) {
+			if (err != nil) != s.Err {
+				r.diverge(kind+":exists-error-mismatch:"+cls, fmt.Sprintf("%s: real err=%v, specification err=%v", where(), err, s.Err))
+			} else if err == nil && !r.compareAnswers(h, kind, opName("Exists", s, single), s.Keys, got, s.Ans, s.MustAns, where) {
 				cancel()
 				return
 			}
@@ -587,8 +745,10 @@ func (r *replayer) run(h *history) {
 			}
 			if (err != nil) != s.Err {
 				r.diverge(kind+":reset-error-mismatch", fmt.Sprintf("%s: real err=%v, specification err=%v", where(), err, s.Err))
-				cancel()
-				return
+				if err != nil {
+					cancel()
+					return
+				}
 			}
 		case "Delete":
 			if err := f.del(ctx); err != nil {
@@ -610,7 +770,7 @@ func (r *replayer) run(h *history) {
 			cancel()
 			return
 		}
-		if kind == "bloom" && haveCount && int64(cnt) < prevCount && s.Op != "Reset" && s.Op != "Delete" {
+		if kind == "bloom" && int64(cnt) < prevCount && s.Op != "Reset" && s.Op != "Delete" {
 			r.rep.Violate("bloom:count-decreased:"+s.Op, fmt.Sprintf("%s: Count went from %d to %d without Reset/Delete", where(), prevCount, cnt), h)
 			cancel()
 			return
@@ -623,14 +783,15 @@ func (r *replayer) run(h *history) {
 				return
 			}
 		}
-		if int64(cnt) != s.Count {
+		if !r.loose && int64(cnt) != s.Count {
 			r.diverge(kind+":count-mismatch", fmt.Sprintf("%s: Count real %d, specification %d", where(), cnt, s.Count))
-			cancel()
-			return
 		}
 		cancel()
 	}
 	_ = f.del(e.ctx)
+	if r.loose {
+		return
+	}
 	r.rep.Traces++
 	for _, s := range h.Steps {
 		if len(s.Keys) > 1 {
@@ -664,25 +825,45 @@ func opName(base string, s *step, single bool) string {
 	return base + "Multi"
 }
 
+// repeatTag: ":repeated-key" when a key occurs for the second time at or before position upto (0-based; -1 = anywhere):
+// the input class "batch with a repeated key" is named only when the repetition can have to do with the failing position.
+func repeatTag(keys []string, upto int) string {
+	seen := map[string]bool{}
+	for i, k := range keys {
+		if upto >= 0 && i > upto {
+			break
+		}
+		if seen[k] {
+			return ":repeated-key"
+		}
+		seen[k] = true
+	}
+	return ""
+}
+
 // compareAnswers classifies differences between real answers and the specification's exact prediction.
-func (r *replayer) compareAnswers(h *history, kind, phase, op string, keys []string, got, pred, must []bool, where func() string) bool {
+func (r *replayer) compareAnswers(h *history, kind, op string, keys []string, got, pred, must []bool, where func() string) bool {
+	tag := op + r.tag
 	if len(got) != len(keys) {
-		r.rep.Violate(kind+":answers-not-per-key:"+op, fmt.Sprintf("%s: %s(%v) returned %d answers for %d keys", where(), op, keys, len(got), len(keys)), h)
+		r.rep.Violate(kind+":answers-not-per-key:"+tag+repeatTag(keys, -1), fmt.Sprintf("%s: %s(%v) returned %d answers for %d keys", where(), op, keys, len(got), len(keys)), h)
 		return false
 	}
 	for i := range keys {
 		if !got[i] && must[i] {
-			r.rep.Violate(kind+":false-negative:"+op,
+			r.rep.Violate(kind+":false-negative:"+tag+repeatTag(keys, i),
 				fmt.Sprintf("%s: then %s(%v) = %v; the specification obliges key #%d (%s) to be reported present (predicted answers %v)", where(), op, keys, got, i+1, keys[i], pred), h)
 			return false
 		}
+	}
+	if r.loose {
+		return true
 	}
 	for i := range keys {
 		if got[i] == pred[i] {
 			continue
 		}
 		r.diverge(kind+":answer-mismatch:"+op, fmt.Sprintf("%s: then %s(%v) = %v, specification %v (not a property obligation)", where(), op, keys, got, pred))
-		return false
+		return true
 	}
 	return true
 }
@@ -693,34 +874,56 @@ func (r *replayer) battery(h *history, f *filter, s *step, kind string, where fu
 	defer cancel()
 	q := r.real(h, h.Q)
 	singles := make([]bool, len(q))
+	single := map[string]bool{}
 	for i, it := range q {
 		b, err := f.existsMulti(ctx, []string{it}, true)
 		if err != nil {
+			if kind == "counting" && strings.Contains(err.Error(), "strconv") {
+				r.rep.Violate("counting:negative-counter", fmt.Sprintf("%s: Exists(%s): %v (a counter of the hash is negative); server %s", where(), h.Q[i], err, r.snapshot(f)), h)
+				return false
+			}
 			r.diverge(kind+":exists-error", fmt.Sprintf("%s: Exists(%s): %v", where(), h.Q[i], err))
 			return false
 		}
 		singles[i] = b[0]
+		single[h.Q[i]] = b[0]
 	}
-	if !r.compareAnswers(h, kind, "battery", "Exists", h.Q, singles, s.Present, s.Must, where) {
+	if !r.compareAnswers(h, kind, "Exists", h.Q, singles, s.Present, s.Must, where) {
 		return false
 	}
-	multi, err := f.existsMulti(ctx, q, false)
-	if err != nil {
-		r.diverge(kind+":exists-error", fmt.Sprintf("%s: ExistsMulti(%v): %v", where(), h.Q, err))
-		return false
-	}
-	if len(multi) != len(q) {
-		r.rep.Violate(kind+":answers-not-per-key:ExistsMulti", fmt.Sprintf("%s: ExistsMulti(%v) returned %d answers", where(), h.Q, len(multi)), h)
-		return false
-	}
-	for i := range q {
-		if multi[i] != singles[i] || multi[i] != s.QAns[i] {
-			if !multi[i] && s.Must[i] {
-				r.rep.Violate(kind+":false-negative:ExistsMulti",
-					fmt.Sprintf("%s: then ExistsMulti(%v) = %v although key #%d (%s) must be present (Exists on each key: %v)", where(), h.Q, multi, i+1, h.Q[i], singles), h)
+	// batches: Q itself, then every batch of QS (repeated keys, absent keys before present ones ...)
+	batches := append([][]string{h.Q}, h.QS...)
+	for bi, keys := range batches {
+		must, pred := s.Must, s.QAns
+		if bi > 0 {
+			if bi-1 >= len(s.QsAns) || bi-1 >= len(s.QsMust) {
+				break
+			}
+			must, pred = s.QsMust[bi-1], s.QsAns[bi-1]
+		}
+		tag := "ExistsMulti"
+		multi, err := f.existsMulti(ctx, r.real(h, keys), false)
+		if err != nil {
+			r.diverge(kind+":exists-error", fmt.Sprintf("%s: ExistsMulti(%v): %v", where(), keys, err))
+			return false
+		}
+		if len(multi) != len(keys) {
+			r.rep.Violate(kind+":answers-not-per-key:"+tag+repeatTag(keys, -1), fmt.Sprintf("%s: ExistsMulti(%v) returned %d answers", where(), keys, len(multi)), h)
+			return false
+		}
+		for i := range keys {
+			if multi[i] == single[keys[i]] && (r.loose || multi[i] == pred[i]) {
+				continue
+			}
+			if !multi[i] && must[i] {
+				r.rep.Violate(kind+":false-negative:"+tag+repeatTag(keys, i),
+					fmt.Sprintf("%s: then ExistsMulti(%v) = %v although key #%d (%s) must be present (Exists on each item of %v: %v)", where(), keys, multi, i+1, keys[i], h.Q, singles), h)
+			} else if multi[i] != single[keys[i]] {
+				r.rep.Violate(kind+":answers-not-per-key:"+tag+repeatTag(keys, i),
+					fmt.Sprintf("%s: then ExistsMulti(%v) = %v but Exists on each item of %v in the same state gives %v", where(), keys, multi, h.Q, singles), h)
 			} else {
-				r.rep.Violate(kind+":answers-not-per-key:ExistsMulti",
-					fmt.Sprintf("%s: then ExistsMulti(%v) = %v but Exists on each key in the same state gives %v", where(), h.Q, multi, singles), h)
+				r.diverge(kind+":answer-mismatch:ExistsMulti", fmt.Sprintf("%s: then ExistsMulti(%v) = %v, specification %v", where(), keys, multi, pred))
+				break
 			}
 			return false
 		}
@@ -730,6 +933,7 @@ func (r *replayer) battery(h *history, f *filter, s *step, kind string, where fu
 	}
 	// counting: ItemMinCount single and multi, raw counters
 	mins := make([]uint64, len(q))
+	minOf := map[string]uint64{}
 	for i, it := range q {
 		m, err := f.cbf.ItemMinCount(ctx, it)
 		if err != nil {
@@ -737,29 +941,42 @@ func (r *replayer) battery(h *history, f *filter, s *step, kind string, where fu
 			return false
 		}
 		mins[i] = m
+		minOf[h.Q[i]] = m
 		if int64(m) < s.NetQ[i] {
 			r.rep.Violate("counting:mincount-below-net:ItemMinCount",
 				fmt.Sprintf("%s: then ItemMinCount(%s) = %d, net multiplicity %d", where(), h.Q[i], m, s.NetQ[i]), h)
 			return false
 		}
-		if int64(m) != s.MinCnt[i] {
+		if !r.loose && int64(m) != s.MinCnt[i] {
 			r.diverge("counting:mincount-mismatch", fmt.Sprintf("%s: ItemMinCount(%s) = %d, specification %d", where(), h.Q[i], m, s.MinCnt[i]))
-			return false
 		}
 	}
-	mm, err := f.cbf.ItemMinCountMulti(ctx, q)
-	if err != nil || len(mm) != len(q) {
-		r.rep.Violate("counting:answers-not-per-key:ItemMinCountMulti", fmt.Sprintf("%s: ItemMinCountMulti(%v) = %v err=%v", where(), h.Q, mm, err), h)
-		return false
-	}
-	for i := range q {
-		if mm[i] != mins[i] || int64(mm[i]) != s.QMins[i] {
-			if int64(mm[i]) < s.NetQ[i] {
+	for bi, keys := range batches {
+		net, pred := s.NetQ, s.QMins
+		if bi > 0 {
+			if bi-1 >= len(s.QsMins) || bi-1 >= len(s.QsNet) {
+				break
+			}
+			net, pred = s.QsNet[bi-1], s.QsMins[bi-1]
+		}
+		mm, err := f.cbf.ItemMinCountMulti(ctx, r.real(h, keys))
+		if err != nil || len(mm) != len(keys) {
+			r.rep.Violate("counting:answers-not-per-key:ItemMinCountMulti", fmt.Sprintf("%s: ItemMinCountMulti(%v) = %v err=%v", where(), keys, mm, err), h)
+			return false
+		}
+		for i := range keys {
+			if mm[i] == minOf[keys[i]] && (r.loose || int64(mm[i]) == pred[i]) {
+				continue
+			}
+			if int64(mm[i]) < net[i] {
 				r.rep.Violate("counting:mincount-below-net:ItemMinCountMulti",
-					fmt.Sprintf("%s: then ItemMinCountMulti(%v) = %v, net multiplicity of key #%d is %d", where(), h.Q, mm, i+1, s.NetQ[i]), h)
-			} else {
+					fmt.Sprintf("%s: then ItemMinCountMulti(%v) = %v, net multiplicity of key #%d is %d", where(), keys, mm, i+1, net[i]), h)
+			} else if mm[i] != minOf[keys[i]] {
 				r.rep.Violate("counting:answers-not-per-key:ItemMinCountMulti",
-					fmt.Sprintf("%s: then ItemMinCountMulti(%v) = %v but ItemMinCount on each key gives %v", where(), h.Q, mm, mins), h)
+					fmt.Sprintf("%s: then ItemMinCountMulti(%v) = %v but ItemMinCount on each item of %v gives %v", where(), keys, mm, h.Q, mins), h)
+			} else {
+				r.diverge("counting:mincount-mismatch:ItemMinCountMulti", fmt.Sprintf("%s: ItemMinCountMulti(%v) = %v, specification %v", where(), keys, mm, pred))
+				break
 			}
 			return false
 		}
@@ -769,9 +986,8 @@ func (r *replayer) battery(h *history, f *filter, s *step, kind string, where fu
 		r.rep.Violate("counting:negative-counter", fmt.Sprintf("%s: server counters %s", where(), snap), h)
 		return false
 	}
-	if want := fmtCnt(s.Cnt, s.Count); snap != want {
+	if want := fmtCnt(s.Cnt, s.Count); !r.loose && snap != want {
 		r.diverge("counting:state-mismatch", fmt.Sprintf("%s: server %s, specification %s", where(), snap, want))
-		return false
 	}
 	return true
 }
@@ -822,6 +1038,7 @@ func replay(rep *vh.Report) {
 	defer fh.Close()
 	r := &replayer{e: newEnv(false), rep: rep, diverged: map[string]int{}, shapes: map[string]bool{}}
 	defer r.e.close()
+	r.e.warmUp()
 	sc := bufio.NewScanner(fh)
 	sc.Buffer(make([]byte, 1<<20), 1<<28)
 	n := 0
@@ -851,6 +1068,143 @@ func replay(rep *vh.Report) {
 	rep.Rule = "replay: distinct (filter kind, size, K, sequence of operation kinds with batch sizes) among the histories replayed to completion"
 }
 
+// warmUp runs every script once so that all of them are in the server's script cache: a fault injected on a later
+// EVALSHA then hits a call that would have executed the script (not one that would have answered NOSCRIPT).
+func (e *env) warmUp() {
+	for _, c := range []config{{Kind: "bloom", N: 10, Rate: 0.1}, {Kind: "bloom", N: 10, Rate: 0.1, ReadOnly: true}, {Kind: "counting", N: 10, Rate: 0.1},
+		{Kind: "sliding", N: 10, Rate: 0.1, WindowMs: 2000}, {Kind: "sliding", N: 10, Rate: 0.1, WindowMs: 2000, ReadOnly: true}} {
+		f, err := e.build(c, e.name("warm"))
+		if err != nil {
+			panic(err)
+		}
+		ctx, cancel := e.cctx()
+		_ = f.addMulti(ctx, []string{"w"}, false)
+		_, _ = f.existsMulti(ctx, []string{"w"}, false)
+		if f.cbf != nil {
+			_ = f.cbf.RemoveMulti(ctx, []string{"w"})
+		}
+		_ = f.del(ctx)
+		cancel()
+	}
+}
+
+// ---------------------------------------------------------------------------------------------- big batches
+
+// bigCase: one AddMulti of thousands of keys and ExistsMulti batches over thousands of keys, each as ONE call, with
+// the answers and obligations the specification (Bloom.tla, Big = TRUE, H = the real index function) predicts per position.
+type bigCase struct {
+	ID      string   `json:"id"`
+	Config  config   `json:"config"`
+	Size    uint     `json:"size"`
+	K       uint     `json:"k"`
+	Items   []string `json:"items"`   // item number i (1-based) is Items[i-1]
+	Add     []int    `json:"add"`     // the AddMulti batch
+	Queries [][]int  `json:"queries"` // the ExistsMulti batches
+	QsAns   [][]bool `json:"qsans"`
+	QsMust  [][]bool `json:"qsmust"`
+}
+
+func big(rep *vh.Report) {
+	var cases []bigCase
+	mustJSON(*inF, &cases)
+	e := newEnv(false)
+	defer e.close()
+	classes := map[string]bool{}
+	for _, c := range cases {
+		rep.Evaluations++
+		desc := fmt.Sprintf("bloom(n=%d,rate=%g,ro=%v) size=%d K=%d", c.Config.N, c.Config.Rate, c.Config.ReadOnly, c.Size, c.K)
+		f, err := e.build(c.Config, e.name("big"))
+		if err != nil {
+			rep.Inconcl("divergence constructor-rejects: %s: %v", desc, err)
+			continue
+		}
+		size, k, _ := rueidisprob.VerifSizing(f.raw)
+		if size != c.Size || k != c.K {
+			rep.Inconcl("divergence sizing-changed: %s: constructor now gives size=%d K=%d", desc, size, k)
+			continue
+		}
+		names := func(ns []int) []string {
+			out := make([]string, len(ns))
+			for i, n := range ns {
+				out[i] = c.Items[n-1]
+			}
+			return out
+		}
+		ctx, cancel := context.WithTimeout(e.ctx, 15*time.Minute)
+		if err := f.bf.AddMulti(ctx, names(c.Add)); err != nil {
+			cancel()
+			if errors.Is(err, context.DeadlineExceeded) {
+				rep.Inconcl("%s: AddMulti of %d keys timed out on the fake server", desc, len(c.Add))
+			} else {
+				rep.Inconcl("divergence bloom:add-error:large-batch: %s: AddMulti of %d keys: %v", desc, len(c.Add), err)
+			}
+			continue
+		}
+		bad := false
+		for qi, q := range c.Queries {
+			keys := names(q)
+			got, err := f.bf.ExistsMulti(ctx, keys)
+			if err != nil {
+				if errors.Is(err, context.DeadlineExceeded) {
+					rep.Inconcl("%s: ExistsMulti of %d keys timed out on the fake server", desc, len(q))
+				} else {
+					rep.Inconcl("divergence bloom:exists-error:large-batch: %s: ExistsMulti of %d keys: %v", desc, len(q), err)
+				}
+				bad = true
+				break
+			}
+			what := fmt.Sprintf("%s: AddMulti of %d keys in one call, then ExistsMulti of %d keys (%d indexes) in one call", desc, len(c.Add), len(q), len(q)*int(c.K))
+			if len(got) != len(q) {
+				rep.Violate("bloom:answers-not-per-key:ExistsMulti:large-batch", fmt.Sprintf("%s returned %d answers", what, len(got)), nil)
+				bad = true
+				break
+			}
+			fn, first, mism, firstM := 0, -1, 0, -1
+			for i := range q {
+				if !got[i] && c.QsMust[qi][i] {
+					if fn == 0 {
+						first = i
+					}
+					fn++
+				}
+				if got[i] != c.QsAns[qi][i] {
+					if mism == 0 {
+						firstM = i
+					}
+					mism++
+				}
+			}
+			if fn > 0 {
+				one, _ := f.bf.Exists(ctx, keys[first])
+				rep.Violate("bloom:false-negative:ExistsMulti:large-batch",
+					fmt.Sprintf("%s reports %d added keys as absent, the first at position %d (%s; Exists of that key alone = %v)", what, fn, first, keys[first], one), nil)
+				bad = true
+				break
+			}
+			if mism > 0 {
+				one, _ := f.bf.Exists(ctx, keys[firstM])
+				if one != got[firstM] {
+					rep.Violate("bloom:answers-not-per-key:ExistsMulti:large-batch",
+						fmt.Sprintf("%s differs from the per-key answers at %d positions, the first at position %d (%s: batch %v, Exists alone %v)", what, mism, firstM, keys[firstM], got[firstM], one), nil)
+				} else {
+					rep.Inconcl("divergence bloom:answer-mismatch:ExistsMulti:large-batch: %s: %d positions differ from the specification, first %d", what, mism, firstM)
+				}
+				bad = true
+				break
+			}
+		}
+		_ = f.del(ctx)
+		cancel()
+		if !bad {
+			rep.Traces++
+			classes[fmt.Sprintf("K=%d/%d keys", c.K, len(c.Queries[0]))] = true
+			rep.Sample(map[string]any{"config": desc, "added": len(c.Add), "queried": len(c.Queries[0])})
+		}
+	}
+	rep.DistinctNontrivial = len(classes)
+	rep.Rule = "big: distinct (hashIterations, batch length) pairs whose large AddMulti/ExistsMulti calls were compared position by position"
+}
+
 func mustJSON(path string, v any) {
 	b, err := os.ReadFile(path)
 	if err != nil {
@@ -871,6 +1225,8 @@ func main() {
 		sweep(rep)
 	case "replay":
 		replay(rep)
+	case "big":
+		big(rep)
 	default:
 		panic("mode")
 	}
